@@ -69,6 +69,7 @@ type Lifecycle struct {
 	SignalPhase int  `json:"signal_phase"` // -1: none; signal is sent AtUs after this phase opens
 	SignalAtUs  int  `json:"signal_at_us"`
 	SigInt      bool `json:"sigint,omitempty"`
+	SignalAbsUs int  `json:"signal_abs_us,omitempty"` // >0: signal at this absolute time instead (may land during boot)
 }
 
 // PipePlan is a whole-pipeline run.
@@ -189,9 +190,18 @@ func applyMutation(b []byte, m Mutation) []byte {
 // phase p are in force for phases > p (and for later sets of the same
 // datagram); a data set whose key is announced by another datagram of the same
 // phase is ambiguous and excluded from equality oracles.
-func finalizePipe(p *PipePlan) {
+func finalizePipe(p *PipePlan) { finalizePipeFrom(p, nil) }
+
+// finalizePipeFrom is finalizePipe with the templates in force at boot (loaded
+// from the cache files); it returns the model cache at the start of every
+// phase (index NPhases: after the last phase).
+func finalizePipeFrom(p *PipePlan, init model.TplCache) []model.TplCache {
 	im := modelIM(&p.Cfg)
 	cache := model.TplCache{} // announcements of completed phases
+	if init != nil {
+		cache = init.Clone()
+	}
+	var snaps []model.TplCache
 	byPhase := map[int][]int{}
 	for i := range p.Dels {
 		byPhase[p.Dels[i].Phase] = append(byPhase[p.Dels[i].Phase], i)
@@ -199,6 +209,7 @@ func finalizePipe(p *PipePlan) {
 	// templates every exporter has ever announced (for the encoder: a data set
 	// is encoded against the template the generator built it for)
 	for ph := 0; ph < p.NPhases; ph++ {
+		snaps = append(snaps, cache.Clone())
 		idx := byPhase[ph]
 		// keys announced in this phase, by delivery
 		announced := map[string][]int{}
@@ -341,6 +352,8 @@ func finalizePipe(p *PipePlan) {
 			d.payload = o.payload
 		}
 	}
+	snaps = append(snaps, cache.Clone())
+	return snaps
 }
 
 // encodeFlowInOrder encodes a flow message resolving each data set against
@@ -488,12 +501,21 @@ func runPipe(p *PipePlan, ch *simrt.Choices, trace bool, adopt map[string][]byte
 		})
 	}
 	// signal source
-	if p.Life.SignalPhase >= 0 && p.Life.SignalPhase <= p.NPhases {
+	if (p.Life.SignalPhase >= 0 && p.Life.SignalPhase <= p.NPhases) || p.Life.SignalAbsUs > 0 {
 		sim.GoNamed("signal", true, func() {
-			simrt.Yield(-22)
-			<-gates[p.Life.SignalPhase]
-			simrt.Yield(-22)
-			simrt.Sleep(time.Duration(p.Life.SignalAtUs) * time.Microsecond)
+			if p.Life.SignalAbsUs > 0 {
+				simrt.Sleep(time.Duration(p.Life.SignalAbsUs) * time.Microsecond)
+				// a signal sent before the process has installed its handler
+				// would kill it by default action: wait for the handler
+				for !sim.HasSignalHandler() {
+					simrt.Sleep(50 * time.Microsecond)
+				}
+			} else {
+				simrt.Yield(-22)
+				<-gates[p.Life.SignalPhase]
+				simrt.Yield(-22)
+				simrt.Sleep(time.Duration(p.Life.SignalAtUs) * time.Microsecond)
+			}
 			var sg os.Signal = syscall.SIGTERM
 			if p.Life.SigInt {
 				sg = syscall.SIGINT
@@ -544,7 +566,7 @@ func runPipe(p *PipePlan, ch *simrt.Choices, trace bool, adopt map[string][]byte
 		if sim.Exited || sim.MainDone {
 			return true
 		}
-		if !obs.Booted {
+		if !obs.Booted && !obs.Signaled {
 			if !booted() {
 				if sim.Now() > 30*time.Second {
 					obs.HarnessErr = "collector did not finish booting"
@@ -573,6 +595,10 @@ func runPipe(p *PipePlan, ch *simrt.Choices, trace bool, adopt map[string][]byte
 			return false
 		}
 		endAt = 0
+		if phase > p.NPhases {
+			// everything delivered and quiescent; only a pending signal keeps the run going
+			return !((p.Life.SignalPhase >= 0 || p.Life.SignalAbsUs > 0) && !obs.Signaled)
+		}
 		if phase >= 0 && donePhase[phase] < perPhase[phase] {
 			return false // network task still has deliveries to make
 		}
@@ -600,7 +626,7 @@ func runPipe(p *PipePlan, ch *simrt.Choices, trace bool, adopt map[string][]byte
 			}
 		}
 		// all phases done; if a signal is pending wait for it
-		if p.Life.SignalPhase >= 0 && !obs.Signaled {
+		if (p.Life.SignalPhase >= 0 || p.Life.SignalAbsUs > 0) && !obs.Signaled {
 			return false
 		}
 		return true
